@@ -1,9 +1,77 @@
 import GnpyDriver.JsonUtil
+import GnpyDriver.C14
 import GnpyModel
 /- driver handlers for property C15 (ops are named "c15.<name>") -/
 open Lean
 namespace Gnpy.Drv.C15
+open Gnpy.Slots Gnpy.Drv.C14
 
-def handlers : List (String × Handler) := []
+def getBand (j : Json) : R Band := do
+  match ← getArr j with
+  | [a, b] => return (← getInt a, ← getInt b)
+  | _ => throw "band = [f_min, f_max] expected"
+
+def jBand (b : Band) : Json := Json.arr #[jInt b.1, jInt b.2]
+
+def getChain (j : Json) : R Chain := do
+  return { els := ← fList getStr j "els", ampBands := ← fList (getList getBand) j "amp_bands" }
+
+def jRec (o : OmsRec) : Json :=
+  jObj [("id", jNat o.id), ("els", jList jStr o.els), ("bm", jBitmap o.bm), ("reversed", jOpt jNat o.reversed)]
+
+/-- build_oms_list on chains -/
+def build (j : Json) : R Json := do
+  let chains ← fList getChain j "chains"
+  let nb ← fList getBand j "net_bands"
+  let si ← fOpt getBand j "si"
+  return exceptJson (jList jRec) (buildOmsList chains nb si)
+
+/-- align_grids on bitmaps -/
+def align (j : Json) : R Json := do
+  let bs ← fList getBitmap j "bitmaps"
+  match bs.mapM id with
+  | .error e => return jObj [("init_error", jStr e)]
+  | .ok l => return exceptJson (jList jBitmap) (alignGrids l)
+
+/-- find_common_range (f_min / f_max) -/
+def common (j : Json) : R Json := do
+  let ab ← fList (getList getBand) j "amp_bands"
+  let si ← fOpt getBand j "si"
+  return jList jBand (commonRange ab si)
+
+/-- create_oms_bitmap -/
+def bitmap (j : Json) : R Json := do
+  let bands ← fList getBand j "bands"
+  return exceptJson (fun c => jStr (stringOfCells c))
+    (createOmsBitmap bands (← fInt j "f_min") (← fInt j "f_max") (← fInt j "grid"))
+
+/-- Bitmap.__init__ -/
+def create (j : Json) : R Json := do
+  return exceptJson jBitmap (← getBitmap j)
+
+/-- Bitmap.insert_left / insert_right -/
+def insert (j : Json) : R Json := do
+  let side ← fStr j "side"
+  let cells ← cellsOfString (← fStr j "new")
+  match ← getBm j with
+  | .error e => return jObj [("init_error", jStr e)]
+  | .ok b => return exceptJson jBitmap (if side == "left" then b.insertLeft cells else b.insertRight cells)
+
+/-- the index conversions -/
+def conv (j : Json) : R Json := do
+  let f ← fInt j "f"
+  let grid ← fInt j "grid"
+  let n ← fInt j "n"
+  let m ← fInt j "m"
+  let a ← fInt j "a"
+  let b ← fInt j "b"
+  return jObj [("frequency_to_n", jInt (frequencyToN f grid)), ("nvalue_to_frequency", jInt (nToFrequency n grid)),
+               ("mvalue_to_slots", Json.arr #[jInt (mToSlots n m).1, jInt (mToSlots n m).2]),
+               ("slots_to_m", Json.arr #[jInt (slotsToM a b).1, jInt (slotsToM a b).2]),
+               ("m_to_freq", Json.arr #[jInt (mToFreq n m grid).1, jInt (mToFreq n m grid).2])]
+
+def handlers : List (String × Handler) :=
+  [("c15.build", build), ("c15.align", align), ("c15.common", common), ("c15.bitmap", bitmap), ("c15.create", create),
+   ("c15.insert", insert), ("c15.conv", conv)]
 
 end Gnpy.Drv.C15
